@@ -201,6 +201,8 @@ def main(argv=None):
     for ln in lines:
         print(ln)
     if n_viol:
+        if R.errors:
+            print(f"NOTE property={prop}: {len(R.errors)} case(s) also ended in a harness/unjudged exception, e.g. {R.errors[0]['what']}")
         print(f"RESULT property={prop} tier={tier} seed={seed}: VIOLATED ({n_viol} refuting observations, "
               f"{R.evaluations} evaluations, {wall:.1f}s)")
         return 1
